@@ -52,6 +52,7 @@ def correspondence(ctx, violations, known_hits):
             if bad <= 5:
                 violations.append({"kind": "debugged-run-differs-from-plain-run", "case": cases[a], "plain_case": cases[b],
                                    "debugged": ri[a][0], "plain": ri[b][0]})
+    real = dbgcommon.cli_cross(ctx, specs, violations, limit=(60 if ctx.tier == "quick" else 1500))
     ctx.cleanup()
     return dbgcommon.coverage(r,
         "programs (loops, nested JSR/RET, CALL/RETS recursion, push/pop, self-modifying, ending in each exception, HALT in the "
@@ -59,7 +60,7 @@ def correspondence(ctx, violations, known_hits):
         "{step, step into k, step out, continue, break add/remove/list a, print, registers, assembly, echo, help} with valid and "
         "invalid arguments, ended by quit or end of input; each session vs the model AND vs the implementation's own plain run "
         "(final registers, PC, CC, all memory, program output, remaining input, exit status)", profiles,
-        direct_comparisons=direct, direct_mismatches=bad)
+        direct_comparisons=direct, direct_mismatches=bad, real_binary_without_hooks=real)
 
 
 def replay(ctx, payload):
